@@ -239,7 +239,7 @@ Cases(modes) ==
 IdSeq(certs) == [i \in 1..Len(certs) |-> certs[i].id]
 CaseOut(cs) == [certs |-> IdSeq(cs.certs), roots |-> IdSeq(cs.roots), inters |-> IdSeq(cs.inters),
                 leaf |-> cs.leaf.id, usages |-> cs.usages, dns |-> cs.dns, times |-> cs.times,
-                mode |-> cs.mode, drift |-> TRUE]
+                mode |-> cs.mode, drift |-> cs.mode # "zerotime"]
 
 \* ids identify certificates: the generator must never give two different records one id
 IdsUnique(universe) == \A a, b \in universe : a.id = b.id => a = b
@@ -267,7 +267,7 @@ Run(dummy) ==
      /\ Assert(unsound = {}, "B layer returns something the A layer forbids")
      \* vacuity guards: the B model does return chains and (in large configurations) does refuse
      /\ Assert(\E x \in facts : x[2].chains, "vacuous generator configuration: B never returns a chain")
-     /\ Assert(Cardinality(cases) > 100 => \E x \in facts : ~x[2].cands, "vacuous generator configuration: B never refuses")
+     /\ Assert(Cardinality(cases) > 100 => \E x \in facts : ~x[2].chains, "vacuous generator configuration: B never refuses")
      /\ ndJsonSerialize(OutU, SetToSeq(universe))
      /\ ndJsonSerialize(OutC, [i \in 1..Len(caseSeq) |-> CaseOut(caseSeq[i])])
      /\ PrintT(<<"GENERATED", Len(caseSeq), Cardinality(universe),
